@@ -99,32 +99,27 @@ def buffered_reader(ctx, R, roles, T, rule="BUF"):
     B0 = ("attr", ("p", bufroot), bufattr) if bufroot else ("p", buf)
     rem = [n for n in g.live_nodes() if n.kind == "stmt" and isinstance(n.ast, ast.Assign) and any(varkey(t) == buf for t in n.ast.targets) and n not in inside]
     R.check(len(rem) == 1, rule, q + "|remainder-site", "one remainder assignment", "expected one assignment of the remainder to the buffer, found %d" % len(rem), f.loc())
+    NONE = ("c", None)
+    if len(rem) == 1:
+        X = T.term(f, rem[0], _mk(buf))          # the buffer as it is just before it is cut
+        rv = T.term(f, rem[0], rem[0].ast.value)
+        rok = rv == ("slice", X, ("p", size), NONE, NONE)
+        R.check(rok, rule, q + "|remainder", "the buffer keeps buffer[size:]", "the remainder kept is `%s`, not buffer[size:]: bytes are lost or duplicated at record boundaries" % src(rem[0].ast.value), f.loc(rem[0].ast))
+        R.check(g.dominates([head], rem[0]), rule, q + "|cut-after-refill", "the buffer is cut after the refill loop", "the buffer is cut before the refill loop has completed", f.loc(rem[0].ast))
+        # nothing else touches the buffer between the loop and the cut
+        defs = df.reaching(rem[0], buf)
+        clean = all(x.node in inside or x.node is g.entry or x.kind in ("entry", "callmut") for x in defs)
+        R.check(clean, rule, q + "|clean", "the buffer is not modified between the refill loop and the cut", "the receive buffer is modified between the refill loop and the cut", f.loc(rem[0].ast))
     for rn in rets:
         v = rn.ast.value
         ok = False
         why = "returns %s" % (src(v) if v is not None else "None")
-        if v is not None and isinstance(unawait(v), ast.Name):
-            d = df.unique_def(rn, unawait(v).id)
-            if d is not None and d.kind == "assign" and isinstance(unawait(d.value), ast.Subscript) and isinstance(unawait(d.value).slice, ast.Slice):
-                sl = unawait(d.value)
-                base_ok = varkey(sl.value) == buf
-                lo_ok = sl.slice.lower is None or (isinstance(sl.slice.lower, ast.Constant) and sl.slice.lower.value in (0, None))
-                hi_ok = sl.slice.upper is not None and varkey(unawait(sl.slice.upper)) == size
-                st_ok = sl.slice.step is None
-                # no modification of the buffer between the loop and this slice
-                defs = df.reaching(d.node, buf)
-                clean = all(x.node in inside or x.node is g.entry or x.kind in ("entry", "callmut") for x in defs)
-                ok = base_ok and lo_ok and hi_ok and st_ok and clean and g.dominates([head], d.node)
-                if not ok:
-                    why = "the record returned is `%s`, not buffer[:size]" % src(sl)
-                # remainder taken after the result, from the same buffer state
-                if ok and len(rem) == 1:
-                    rv = unawait(rem[0].ast.value)
-                    rok = isinstance(rv, ast.Subscript) and isinstance(rv.slice, ast.Slice) and varkey(rv.value) == buf and rv.slice.lower is not None \
-                        and varkey(unawait(rv.slice.lower)) == size and rv.slice.upper is None and rv.slice.step is None
-                    R.check(rok, rule, q + "|remainder", "the buffer keeps buffer[size:]", "the remainder kept is `%s`, not buffer[size:]: bytes are lost or duplicated at record boundaries" % src(rv), f.loc(rem[0].ast))
-                    R.check(g.dominates([d.node], rem[0]) and g.dominates([rem[0]], rn), rule, q + "|order", "result is taken before the buffer is cut, both before returning",
-                            "the result slice is taken after the buffer was already cut (or the cut is skipped)", f.loc(rem[0].ast))
+        if v is not None and len(rem) == 1:
+            rt = T.term(f, rn, v)
+            ok = rt in (("slice", X, NONE, ("p", size), NONE), ("slice", X, ("c", 0), ("p", size), NONE))
+            if not ok:
+                why = "the record returned is %s, not buffer[:size] of the buffer before the cut" % show(rt)
+            R.check(g.dominates([rem[0]], rn), rule, q + "|order|" + norm_stmt(rn.ast), "the buffer is cut before returning", "the buffer cut can be skipped before returning: the record would be delivered twice", f.loc(rn.ast))
         R.check(ok, rule, "%s|%s" % (q, norm_stmt(rn.ast)), "returns buffer[:size]", why, f.loc(rn.ast))
 
 
